@@ -248,7 +248,7 @@ NET_CONTENT(__CPROVER_ensures(!(vg_k >= (size_t) __CPROVER_old(self->len) && vg_
 #endif
 
 /* str.c:348  fresh object with a fresh copy of the text (same length, same bytes by ghost index); argument untouched.
- * (Used by url.c only after findings/proposed/C14_url_dup_stale_components.diff.) */
+ * (Used by spif_url_dup since fix 6400880.) */
 spif_str_t spif_str_dup(spif_str_t self)
 __CPROVER_requires(self != NULL && self->s != NULL && self->len >= 0 && self->len < self->size && self->size <= VCAP)
 __CPROVER_assigns()
@@ -403,15 +403,25 @@ __CPROVER_ensures(__CPROVER_is_fresh(__CPROVER_return_value, sizeof(spif_const_u
 __CPROVER_ensures(URL_BUILT_COMPS(__CPROVER_return_value))
 ;
 /* ---- C05: dup / comp / type -------------------------------------------------------------------- */
-/* dup: a NEW object with a NEW text buffer holding the same text (length, terminator, byte vg_k) and
- * components that are each absent or NEW owned strings; the original is not assigned.  (The components
- * are produced by re-parsing the text: see finding C05-url-dup-stale in known_findings/C05.net.json.) */
+/* dup: a NEW object with a NEW text buffer holding the same text (length, terminator, byte vg_k) and, for every
+ * component, absent iff absent in the original, otherwise a NEW string with the same length and the same bytes
+ * (ghost index vg_k2); the original is not assigned.  (Since fix 6400880 the components are copied one by one.) */
+#define URL_COMP_COPIED(r, o) (((r) == NULL) == ((o) == NULL) && ((o) == NULL || \
+    (__CPROVER_is_fresh((r), sizeof(spif_const_str_t)) && (r)->len == (o)->len && (r)->size > (r)->len && \
+     __CPROVER_is_fresh((r)->s, (size_t) (r)->len + 1) && (r)->s[(r)->len] == 0 && \
+     (!(vg_k < (size_t) (o)->len) || (r)->s[vg_k] == (o)->s[vg_k]))))
 spif_url_t spif_url_dup(spif_url_t self)
 __CPROVER_requires(__CPROVER_is_fresh(self, sizeof(spif_const_url_t)) && URL_COMPS_OK(self))
 __CPROVER_requires(URL_ARG_TEXT(NSTR(self)->s) && NSTR(self)->len >= 0 && (size_t) NSTR(self)->len == vg_n1 && NSTR(self)->size > NSTR(self)->len)
-__CPROVER_assigns(vg_txt, vg_txt_len, vg_buf, vg_buf_len, VG_LOOKUP_ASSIGNS)
+__CPROVER_assigns()
 __CPROVER_ensures(__CPROVER_is_fresh(__CPROVER_return_value, sizeof(spif_const_url_t)) && URL_BUILT(__CPROVER_return_value, NSTR(self)->s))
-__CPROVER_ensures(URL_BUILT_COMPS(__CPROVER_return_value))
+__CPROVER_ensures(URL_COMP_COPIED(__CPROVER_return_value->proto, self->proto))
+__CPROVER_ensures(URL_COMP_COPIED(__CPROVER_return_value->user, self->user))
+__CPROVER_ensures(URL_COMP_COPIED(__CPROVER_return_value->passwd, self->passwd))
+__CPROVER_ensures(URL_COMP_COPIED(__CPROVER_return_value->host, self->host))
+__CPROVER_ensures(URL_COMP_COPIED(__CPROVER_return_value->port, self->port))
+__CPROVER_ensures(URL_COMP_COPIED(__CPROVER_return_value->path, self->path))
+__CPROVER_ensures(URL_COMP_COPIED(__CPROVER_return_value->query, self->query))
 ;
 /* comp: NULL before every object, otherwise the three-way comparison of the two texts */
 spif_cmp_t spif_url_comp(spif_url_t self, spif_url_t other)
